@@ -182,14 +182,16 @@ def run(ctx):
     for n in cfg.nodes:
         if fate(n) == "advance" and any(n.ast is x or any(n.ast is y for y in ast.walk(x)) for x in il.body):
             conds = []
+            cond_nodes = []
             prev_child = n.ast
             p = getattr(n.ast, "_parent", None)
             while p is not None and p is not il:
                 if isinstance(p, ast.If) and any(prev_child is s for s in p.body):
                     conds.append(src(p.test))
+                    cond_nodes.append(p.test)
                 prev_child = p
                 p = getattr(p, "_parent", None)
-            is_eq = any("is_equal" in c for c in conds)
+            is_eq = any("is_equal" in c for c in conds) or any(_derives_from_is_equal(t_, fn) for t_ in cond_nodes)
             is_catch = any("catch_pattern_failure_label" in c for c in conds)
             ok = is_eq or is_catch
             if is_catch and not is_eq:
@@ -488,17 +490,58 @@ def d_priority_zero(ctx):
                    "the scaled score has no positive floor: priority 0.0 turns a match into score 0.0 = no match"), line=n.lineno)
 
 
+
+def _derives_from_is_equal(test, fn):
+    """The condition is an `is_equal` test, or a flag that is first assigned from `is_equal(...)` and afterwards only narrowed (re-assigned under `if <flag> and ...`)."""
+    if "is_equal" in src(test):
+        return True
+    names = [n.id for n in ast.walk(test) if isinstance(n, ast.Name)]
+    for nm in names:
+        assigns = sorted([a for a in ast.walk(fn) if isinstance(a, ast.Assign) and any(isinstance(t_, ast.Name) and t_.id == nm for t_ in a.targets)], key=lambda a: a.lineno)
+        if not assigns or "is_equal" not in src(assigns[0].value):
+            continue
+        ok = True
+        for a in assigns[1:]:
+            par = getattr(a, "_parent", None)
+            narrowed = False
+            while par is not None and par is not fn:
+                if isinstance(par, ast.If):
+                    te = par.test
+                    conj = te.values if isinstance(te, ast.BoolOp) and isinstance(te.op, ast.And) else [te]
+                    if any(isinstance(c, ast.Name) and c.id == nm for c in conj):
+                        narrowed = True
+                par = getattr(par, "_parent", None)
+            ok = ok and narrowed
+        if ok:
+            return True
+    return False
+
+
 def c_identity_by_instance(ctx):
     """`identical action`: for events that refer to an EXISTING action instance (Stop/Change of a running action) identity includes the instance.  Event.is_equal compares
     name and arguments only, so the co-win branch must also compare the action uids before it merges the two actions."""
     t = ctx.tree.ast(SM)
     fn = find_function(t, "_resolve_action_conflicts")
-    eqs = [i for i in ast.walk(fn) if isinstance(i, ast.If) and "is_equal" in src(i.test)]
+    eqs = [i for i in ast.walk(fn) if isinstance(i, ast.If) and _derives_from_is_equal(i.test, fn)
+           and any(isinstance(c, ast.Call) and isinstance(c.func, ast.Attribute) and c.func.attr == "append" for st in i.body for c in ast.walk(st))]
     if not eqs:
         ctx.check("C05.c.identity-instance", SM, fn.name, "co-win test", False, "no `is_equal` test decides which competing heads co-win", line=fn.lineno)
         return
     i = eqs[0]
-    uid_cmp = [c for c in ast.walk(i) if isinstance(c, ast.Compare) and any(isinstance(o, (ast.Eq, ast.NotEq)) for o in c.ops)
+    # the uid comparison may sit in the branch or in the computation of the flag the branch tests
+    scope_nodes = list(ast.walk(i))
+    for nm in [n.id for n in ast.walk(i.test) if isinstance(n, ast.Name)]:
+        for a in ast.walk(fn):
+            if isinstance(a, ast.Assign) and any(isinstance(t_, ast.Name) and t_.id == nm for t_ in a.targets):
+                scope_nodes += list(ast.walk(a))
+                par = getattr(a, "_parent", None)
+                if isinstance(par, ast.If):
+                    scope_nodes += list(ast.walk(par.test))
+                    for nm2 in [n.id for n in ast.walk(par.test) if isinstance(n, ast.Name)]:
+                        for a2 in ast.walk(fn):
+                            if isinstance(a2, ast.Assign) and any(isinstance(t_, ast.Name) and t_.id == nm2 for t_ in a2.targets):
+                                scope_nodes += list(ast.walk(a2))
+    uid_cmp = [c for c in scope_nodes if isinstance(c, ast.Compare) and any(isinstance(o, (ast.Eq, ast.NotEq)) for o in c.ops)
                and re.search(r"winning\w*\.action_uid", src(c)) and re.search(r"competing\w*\.action_uid", src(c))]
     dels = [d for d in ast.walk(i) if isinstance(d, ast.Delete) and "state.actions" in src(d)]
     ok = bool(uid_cmp) or not dels
